@@ -103,9 +103,9 @@ theorem readTlvLoop_mapOK : ∀ (fuel : Nat) (r : Reader) (m : TlvMap), MapOK m 
           fromBe_len2_lt _ (fun x hx => hdo x (mem_drop hx)) (by simp [h1l])
         have htag : fromBe (hd.take 2) < 65536 := fromBe_take2_lt hd hdo
         generalize fromBe (hd.drop 2) = len at hlen ⊢
-        have h2 := readBytes_step { r1 with alloc := r1.alloc + len } len
-        have h2l := readBytes_length { r1 with alloc := r1.alloc + len } len
-        generalize Reader.readBytes { r1 with alloc := r1.alloc + len } len = p2 at h2 h2l
+        have h2 := readBytes_step { r1 with alloc := r1.alloc + min len (r1.remaining + 1) } len
+        have h2l := readBytes_length { r1 with alloc := r1.alloc + min len (r1.remaining + 1) } len
+        generalize Reader.readBytes { r1 with alloc := r1.alloc + min len (r1.remaining + 1) } len = p2 at h2 h2l
         obtain ⟨v, r2⟩ := p2
         simp only at h2 h2l ⊢
         split
@@ -387,8 +387,8 @@ theorem tlvLoop_len : ∀ (fuel : Nat) (r : Reader) (m : TlvMap), (readTlvLoop f
       · simpa [Reader.setErrNil] using h1
       · exact h1
       · generalize fromBe (hd.drop 2) = len
-        have h2 := (readBytes_step { r1 with alloc := r1.alloc + len } len).len
-        generalize Reader.readBytes { r1 with alloc := r1.alloc + len } len = p2 at h2
+        have h2 := (readBytes_step { r1 with alloc := r1.alloc + min len (r1.remaining + 1) } len).len
+        generalize Reader.readBytes { r1 with alloc := r1.alloc + min len (r1.remaining + 1) } len = p2 at h2
         obtain ⟨v, r2⟩ := p2
         simp only at h2 ⊢
         split
